@@ -171,7 +171,7 @@ def gen_cases(tier, seed):
     pairs = [(a, b) for a in singles for b in singles if not (a[1].startswith("refused") and b[1].startswith("refused"))]
     rng.shuffle(pairs)
     npairs = 160 if tier == "quick" else len(pairs)
-    for (s1, w1), (s2, w2) in pairs[:npairs]:
+    for (s1, w1), (s2, w2) in (pairs[:npairs] if tier == "quick" else pairs * 5):
         add({"d1": {"stage": s1, "way": w1, "off": rng.randint(1, 60)}, "d2": {"stage": s2, "way": w2, "off": rng.randint(1, 60)},
              "trigger": rng.choice(["pub", "ctl"])})
     for i, c in enumerate(cases):
